@@ -296,6 +296,22 @@ def scalar_routes(rt, ubi, E):
     for attr, field in (("UB", "UB"), ("ub", "UB"), ("mt", "mt"), ("rmt", "rmt"), ("unitcell", "cell"),
                         ("B", "B"), ("U", "U"), ("u", "U"), ("Rod", "Rod")):
         out.append(("grain.%s" % attr, field, call(getattr, g, attr)))
+    # a grain that carries a reference phase (indexing.do_index and DataSet.get_grains_from_disk attach one before anything
+    # is read): the reference describes ANOTHER lattice and must not leak into any of the grain's own quantities
+    refcell = [E["cell"][0] * 1.01, E["cell"][1] * 0.985, E["cell"][2] * 1.02, 90.0, 90.0, 90.0]
+    ruc = call(rt.unitcell.unitcell, refcell, "P")
+    if not isinstance(ruc, Exception):
+        for order in (("B", "U", "Rod", "UB", "mt", "rmt", "unitcell"), ("unitcell", "mt", "UB", "Rod", "U", "B", "rmt")):
+            gr = call(rt.grain.grain, ubi.copy())
+            if isinstance(gr, Exception):
+                break
+            r = call(setattr, gr, "ref_unitcell", ruc)
+            if isinstance(r, Exception):
+                out.append(("grain.ref_unitcell = unitcell", "ctor", r))
+                break
+            for attr in order:
+                out.append(("grain with a reference unitcell attached: grain.%s" % attr,
+                            {"unitcell": "cell"}.get(attr, attr), call(getattr, gr, attr)))
     ix = rt.indexing
     out.append(("indexing.ubitocellpars", "cell", call(ix.ubitocellpars, ubi.copy())))
     out.append(("indexing.ubitoU", "U", call(ix.ubitoU, ubi.copy())))
